@@ -417,6 +417,8 @@ func drive(args []string) int {
 				break
 			}
 		}
+		for try := 0; try < 3 && !forcedBurstAdd(out); try++ {
+		}
 	}
 	// phase 2: everything else in parallel (callback gates are per run)
 	var wg sync.WaitGroup
@@ -507,6 +509,32 @@ func forcedReplaceWhileStarting(out *output, hook *sched.Gate) bool {
 	r.add(1, r.since()+2*unit, false, 0) // B replaces A
 	hook.ReleaseAll()
 	return r.finish(out) && ok
+}
+
+// forcedBurstAdd: three idle workers; two far-future elements are added back to back by one goroutine under GOMAXPROCS(1)
+// (no worker runs between the two Adds); a little later a due element is added. Two workers have nothing to wait for: the
+// due element has to be delivered promptly, not when a far-future timer happens to fire. After 25 units the driver logs `probe`.
+func forcedBurstAdd(out *output) bool {
+	old := runtime.GOMAXPROCS(1)
+	r := newRun("forced-burst-add", "exec", 3, 0)
+	time.Sleep(5 * time.Millisecond) // the workers reach their wait
+	var far1, far2 int
+	r.goThread(1, func() {
+		far1 = r.add(0, r.since()+3000*unit, false, 0)
+		far2 = r.add(0, r.since()+3001*unit, false, 0)
+	})
+	r.join(1, stallBound/2)
+	runtime.GOMAXPROCS(old)
+	time.Sleep(10 * time.Millisecond) // one worker waits for the first far-future element, the second one is queued
+	r.add(0, r.since(), false, 0)     // a due element: an idle worker has to take it
+	time.Sleep(25 * unit)
+	r.lg.add(core.Ev{"op": "probe", "slack": int64(20 * unit / time.Microsecond)})
+	r.cancel(far1)
+	r.cancel(far2)
+	r.mu.Lock()
+	r.maxAt = r.since()
+	r.mu.Unlock()
+	return r.finish(out)
 }
 
 // forcedLostWakeup - TimedImpl.broadcast_if_empty counterexample: two idle workers wait for elements; Add wakes one;
